@@ -29,7 +29,7 @@ DESIGN_REF = "6/C13"
 LEAN_MODULES = ["Clikit.Props.C13"]
 REQUIRED_THEOREMS = ["Clikit.Props.C13." + n for n in (
     "help_total", "help_complete", "help_names", "help_inherits", "help_hides", "help_width", "help_width_pages",
-    "help_indent_zero", "help_total_indented", "help_width_indented", "help_width_pages_indented",
+    "help_indent_zero", "help_total_indented", "width_ok_decides", "help_width_indented", "help_width_pages_indented",
     "help_wrap_contract", "help_same_page", "help_same_page_partial", "help_same_page_facts", "help_same_page_default",
     "help_same_page_wired", "help_same_page_wired_decides", "dApp_same_page")]
 TECHNIQUE = ("Lean 4 theorems on a model of ApplicationHelp / CommandHelp / BlockLayout / LabelAlignment / "
@@ -567,12 +567,28 @@ def _model_page(p):
     return v, outside
 
 
+def _model_width(p):
+    """the hypothesis `widthOKAt` of help_total_indented as the model decides it for this page and terminal, with the
+    threshold `minWidthAt` (Props.C13.width_ok_decides); None when the page has no layout (help text with braces)"""
+    if "min_width" not in p or p["page"].get("err") == "KeyError":
+        return None
+    return {"min_width": p["min_width"], "width_ok": p["width_ok"]}
+
+
+def _real_width(case, res):
+    """the same read off the REAL BlockLayout of the page (`_layout_of`: longest label + offset + 2, + outer indentation)"""
+    if res.get("min_width") is None:
+        return None
+    return {"min_width": res["min_width"], "width_ok": case["width"] >= res["min_width"]}
+
+
 def model_obs(case, answers):
     a = answers[0]
     _, paths, _ = _model_input(case)
     app_v, app_out = _model_page(a["app"])
     cmd_v = [_model_page(p) for p in a["cmds"]]
-    out = {"app": app_v, "cmds": [v for (v, _) in cmd_v], "runs": [], "wired": answers[1]}
+    out = {"app": app_v, "cmds": [v for (v, _) in cmd_v], "runs": [], "wired": answers[1],
+           "width_hyp": [_model_width(a["app"])] + [_model_width(p) for p in a["cmds"]]}
     for t in a["targets"]:
         if "err" in t:
             out["runs"].append({"fails": True})
@@ -601,7 +617,9 @@ def impl_view(case, obs):
            # the claim: the tree of EVERY application built on DefaultApplicationConfig satisfies the structural
            # hypotheses of help_same_page_default (wiredB, for both switches); a real tree that violates them is a
            # model/implementation disagreement
-           "wired": WIRED}
+           "wired": WIRED,
+           # the width hypothesis of help_total / help_total_indented, evaluated on the real layout of every page
+           "width_hyp": [_real_width(case, obs["app"])] + [_real_width(case, r) for (_, r) in obs["cmds"]]}
     for (toks, r) in obs["runs"]:
         if r.get("status") == 0 and not r.get("err"):
             out["runs"].append({"outside": True} if r["outside"] else {"ok": ANSI_RE.sub("", r["out"])})
